@@ -241,6 +241,7 @@ func (t *Target) WaitUntilHealthy(timeout time.Duration) bool {
 func (t *Target) HealthCheckCompleted(success bool) {
 	previousState := t.state
 	newState := t.state
+	becameHealthy := false
 
 	t.withInflightLock(func() {
 		switch success {
@@ -248,7 +249,7 @@ func (t *Target) HealthCheckCompleted(success bool) {
 			switch t.state {
 			case TargetStateAdding:
 				t.state = TargetStateHealthy
-				close(t.becameHealthy)
+				becameHealthy = true
 			default:
 				t.state = TargetStateHealthy
 			}
@@ -268,6 +269,12 @@ func (t *Target) HealthCheckCompleted(success bool) {
 		if t.stateConsumer != nil {
 			t.stateConsumer.TargetStateChanged(t)
 		}
+	}
+
+	// Signal waiters only after the load balancer has put the target into its
+	// rotation, so that whoever waited can send traffic straight away.
+	if becameHealthy {
+		close(t.becameHealthy)
 	}
 }
 
